@@ -144,6 +144,8 @@ pub struct RunResult {
     pub capped: bool,
     pub wall_s: f64,
     pub seeds: usize,
+    /// when capped: every history with fewer fine ops than this was explored
+    pub complete_below_depth: Option<usize>,
 }
 
 pub fn scratch_root() -> PathBuf {
@@ -301,6 +303,44 @@ pub fn state_hash(d: &Driver) -> u64 {
     h.finish()
 }
 
+/// Work list: shortest histories first (so a capped run is complete up to a depth) while the
+/// frontier is small, newest first once it grows large (bounded memory).
+pub struct Frontier {
+    by_len: std::collections::BTreeMap<usize, Vec<(usize, Vec<Op>)>>,
+    n: usize,
+}
+
+impl Frontier {
+    pub fn new() -> Self {
+        Self { by_len: Default::default(), n: 0 }
+    }
+    pub fn push(&mut self, item: (usize, Vec<Op>)) {
+        // fine ops beyond the seed decide the depth
+        let d = item.1.len() - item.0;
+        self.by_len.entry(d).or_default().push(item);
+        self.n += 1;
+    }
+    pub fn pop(&mut self) -> Option<(usize, Vec<Op>)> {
+        let key = if self.n > 2_000_000 {
+            *self.by_len.keys().next_back()?
+        } else {
+            *self.by_len.keys().next()?
+        };
+        let v = self.by_len.get_mut(&key)?;
+        let it = v.pop();
+        if v.is_empty() {
+            self.by_len.remove(&key);
+        }
+        if it.is_some() {
+            self.n -= 1;
+        }
+        it
+    }
+    pub fn min_depth(&self) -> Option<usize> {
+        self.by_len.keys().next().copied()
+    }
+}
+
 pub struct Limits {
     pub max_nodes: u64,
     pub max_wall_s: f64,
@@ -315,7 +355,8 @@ pub fn explore(sc: Arc<dyn Scenario>, limits: &Limits) -> RunResult {
     fresh_dir(&root);
 
     let stats = Arc::new(Stats::default());
-    let stack: Arc<Mutex<Vec<(usize, Vec<Op>)>>> = Arc::new(Mutex::new(vec![]));
+    let stack: Arc<Mutex<Frontier>> = Arc::new(Mutex::new(Frontier::new()));
+    let min_unexpanded: Arc<Mutex<Option<usize>>> = Arc::new(Mutex::new(None));
     let inflight = Arc::new(AtomicUsize::new(0));
     let found: Arc<Mutex<Vec<Found>>> = Arc::new(Mutex::new(vec![]));
     let states: Arc<Mutex<HashSet<u64>>> = Arc::new(Mutex::new(HashSet::new()));
@@ -339,6 +380,7 @@ pub fn explore(sc: Arc<dyn Scenario>, limits: &Limits) -> RunResult {
     for w in 0..limits.threads {
         let sc = sc.clone();
         let stack = stack.clone();
+        let min_unexpanded = min_unexpanded.clone();
         let inflight = inflight.clone();
         let found = found.clone();
         let stats = stats.clone();
@@ -370,6 +412,11 @@ pub fn explore(sc: Arc<dyn Scenario>, limits: &Limits) -> RunResult {
                 || start.elapsed().as_secs_f64() > max_wall
             {
                 stats.capped.store(true, Ordering::Relaxed);
+                {
+                    let d = ops.len() - seed_len;
+                    let mut m = min_unexpanded.lock().unwrap();
+                    *m = Some(m.map_or(d, |x| x.min(d)));
+                }
                 inflight.fetch_sub(1, Ordering::SeqCst);
                 continue;
             }
@@ -446,6 +493,7 @@ pub fn explore(sc: Arc<dyn Scenario>, limits: &Limits) -> RunResult {
     let n_outcomes = outcomes.lock().unwrap().len() as u64;
     let op_stats_v = op_stats.lock().unwrap().clone();
     let samples_v = samples.lock().unwrap().clone();
+    let complete_below = *min_unexpanded.lock().unwrap();
     RunResult {
         scenario: sc.name(),
         nodes: stats.nodes.load(Ordering::Relaxed),
@@ -460,6 +508,7 @@ pub fn explore(sc: Arc<dyn Scenario>, limits: &Limits) -> RunResult {
         capped: stats.capped.load(Ordering::Relaxed),
         wall_s: start.elapsed().as_secs_f64(),
         seeds: nseeds,
+        complete_below_depth: complete_below,
     }
 }
 
